@@ -74,92 +74,88 @@ def r1(ck, prog, run):
         run.analysed["api_entries"] |= {"scipy.fft." + n for n in names} | {"dask.array.fft.fft_wrap"}
     except ImportError as e:
         ck.unk("R1", "pulsarbat/fft.py", "introspection", "scipy.fft / dask.array.fft importable", str(e))
-    # guard dominance
-    params = [p for p, _ in ga.params()]
-    pname = params[0] if params else "name"
-    cfg = CFG(ga.node)
-    guards = [(n, br, t, r) for n, br, t, r in cfg.guards()
-              if isinstance(t, ast.Compare) and len(t.ops) == 1 and isinstance(t.ops[0], ast.NotIn)
-              and isinstance(t.left, ast.Name) and t.left.id == pname and norm(t.comparators[0]) == "_FFT_FUNCS"]
-    if not guards:
-        ck.same("R1", where, f"if {pname} not in _FFT_FUNCS: raise AttributeError", "names outside the table are refused", False,
-                found="no such guard in __getattr__", nontrivial=True)
-    else:
-        gnode, br, test, rs = guards[0]
-        ck.same("R1", where, norm(test), "the refusal raises AttributeError", raised_exception_name(rs) == "AttributeError",
-                found=str(raised_exception_name(rs)))
-        passing = cfg.branch[(gnode, br)]
-        others = [n for n, s in cfg.statements() if n != gnode and cfg.reachable(n) and not _inside(s, cfg.stmt[gnode])]
-        nd = [norm(cfg.stmt[n])[:60] for n in others if not cfg.dominates(passing, n)]
-        ck.same("R1", where, norm(test), "the refusal dominates every other statement of __getattr__ (nothing happens for an unknown name)",
-                not nd, found=f"not dominated: {nd}", nontrivial=True)
-    # closure dataflow
-    assigns = [s for s in ga.node.body if isinstance(s, ast.Assign)]
-    look = None
-    for a in assigns:
-        v = a.value
-        if isinstance(v, ast.Call) and isinstance(v.func, ast.Name) and v.func.id == "getattr" and len(v.args) == 2:
-            look = a
-    if look is None or not isinstance(look.targets[0], ast.Name):
-        ck.same("R1", where, "getattr(scipy.fft, name)", "the transform is looked up by getattr on scipy.fft", False, found="lookup not found",
-                nontrivial=True)
-        return
-    var = look.targets[0].id
-    dotted = prog.resolve_expr_name(mi, look.value.args[0])
-    ck.same("R1", where, norm(look), "the transform is taken from scipy.fft", dotted == "scipy.fft", found=str(dotted), nontrivial=True)
-    a2 = look.value.args[1]
-    rebinds = [norm(s) for s in ast.walk(ga.node) if isinstance(s, (ast.Assign, ast.AugAssign, ast.NamedExpr))
-               and any(isinstance(t, ast.Name) and t.id == pname for t in (s.targets if isinstance(s, ast.Assign) else [s.target]))]
-    ck.same("R1", where, norm(look), "the lookup uses the requested name itself (no remapping or re-binding of the name)",
-            isinstance(a2, ast.Name) and a2.id == pname and not rebinds, found=f"{norm(a2)}; rebinds: {rebinds}", nontrivial=True)
-    var_rebinds = [norm(s) for s in ast.walk(ga.node) if isinstance(s, ast.Assign) and s is not look
-                   and any(isinstance(t, ast.Name) and t.id == var for t in s.targets)]
-    ck.same("R1", where, f"{var}", "the looked-up function is bound once", not var_rebinds, found=str(var_rebinds))
-    inner = [s for s in ga.node.body if isinstance(s, ast.FunctionDef)]
-    default = [f for f in inner if any(norm(d).endswith("singledispatch") for d in f.decorator_list)]
-    dask_b = [f for f in inner if any(".register(" in norm(d) and "Array" in norm(d) for d in f.decorator_list)]
-    if len(default) != 1 or len(dask_b) != 1:
-        ck.unk("R1", where, "dispatch bodies", "one default body (singledispatch) and one dask.array.Array body", f"{len(default)} / {len(dask_b)}")
-        return
-    reg = [d for d in dask_b[0].decorator_list if ".register(" in norm(d)][0]
-    reg_t = prog.resolve_expr_name(mi, reg.args[0]) if isinstance(reg, ast.Call) and reg.args else None
-    ck.same("R1", where, norm(reg), "the lazy body is registered for dask.array.Array on the default body's dispatcher",
-            reg_t == "dask.array.Array" and isinstance(reg.func, ast.Attribute) and isinstance(reg.func.value, ast.Name)
-            and reg.func.value.id == default[0].name, found=f"{reg_t}", nontrivial=True)
+    # semantic evaluation of __getattr__: the returned dispatcher is applied to NumPy- and Dask-tagged arrays
+    from ..symeval import Evaluator, Frame
+    from ..extapi import EXT
+    x_np = Num(sp.Symbol("x"), kind="array", shape=(N, sp.Integer(3)), tag="data", backend="numpy", dtype=ExtV("numpy.complex128"))
+    x_da = Num(sp.Symbol("x"), kind="array", shape=(N, sp.Integer(3)), tag="data", backend="dask", dtype=ExtV("numpy.complex128"))
+    call_kw = {"axis": Num(0), "n": Num(sp.Symbol("nfft", integer=True, positive=True))}
+    for nm in NAMES14:
+        ev = Evaluator(prog)
+        tag = f"pulsarbat.fft.{nm}"
+        try:
+            disp = ev.call(ga, [StrV(nm)], {})
+            fr0 = Frame(ev, None, None, {}, 0)
+            kw = dict(call_kw) if nm in ("fft", "ifft", "rfft", "irfft", "hfft", "ihfft") else {}
+            ref = EXT["scipy.fft." + nm](ev, [x_np], kw, fr0, None)
+            r_np = ev.apply(disp, [x_np], kw, fr0)
+            n_before = len([t for t in ev.trace if t[0] == "fft_wrap"])
+            r_da = ev.apply(disp, [x_da], kw, fr0)
+            wraps = [t for t in ev.trace if t[0] == "fft_wrap"][n_before:]
+        except Raised as e:
+            ck.same("R1", where, tag, "a listed transform is available", False, found=str(e)[:160], nontrivial=True)
+            continue
+        except Unsupported as e:
+            ck.unk("R1", where, tag, "the dispatch evaluates", str(e)[:200])
+            continue
+        ck.same("R1", where, tag + " on a NumPy array", f"is scipy.fft.{nm} applied to the caller's arguments unchanged (same name: no remapping)",
+                isinstance(r_np, Num) and r_np.expr == ref.expr and r_np.backend != "dask", found=str(r_np)[:120], expected=str(ref.expr)[:120], nontrivial=True)
+        okw = len(wraps) == 1 and isinstance(wraps[0][1], ExtV) and wraps[0][1].dotted == "scipy.fft." + nm \
+            and len(wraps[0][2]) == 1 and wraps[0][2][0] is x_da and set(wraps[0][3]) == set(kw)
+        ck.same("R1", where, tag + " on a Dask array", f"is dask.array.fft.fft_wrap(scipy.fft.{nm}) applied to the caller's arguments unchanged, lazily (result stays Dask-backed)",
+                okw and isinstance(r_da, Num) and r_da.expr == ref.expr and r_da.backend == "dask",
+                found=f"wrapped: {[str(t[1]) for t in wraps]}; result {str(r_da)[:80]} backend={getattr(r_da, 'backend', None)}", nontrivial=True)
+        if wraps and wraps[0][4]:
+            declared_vs_reference(ck, prog, ga, where, nm, kw, sorted(wraps[0][4]))
+    for nm in ("fftfreq", "dct", "fftshift", "next_fast_len", "fft_", "FFT", "_FFT_FUNCS", "__wrapped__"):
+        ev = Evaluator(prog)
+        try:
+            ev.call(ga, [StrV(nm)], {})
+            ck.same("R1", where, f"pulsarbat.fft.{nm}", "a name outside the table raises AttributeError", False, found="returned a function", nontrivial=True)
+        except Raised as e:
+            ck.same("R1", where, f"pulsarbat.fft.{nm}", "a name outside the table raises AttributeError", e.exc_name == "AttributeError", found=str(e)[:120],
+                    nontrivial=True)
+        except Unsupported as e:
+            ck.unk("R1", where, f"pulsarbat.fft.{nm}", "a name outside the table raises AttributeError", str(e)[:200])
 
-    def passthrough(call):
-        return (len(call.args) == 1 and isinstance(call.args[0], ast.Starred) and len(call.keywords) == 1 and call.keywords[0].arg is None
-                and isinstance(call.args[0].value, ast.Name) and call.args[0].value.id == (fdef.args.vararg.arg if fdef.args.vararg else None)
-                and isinstance(call.keywords[0].value, ast.Name) and call.keywords[0].value.id == (fdef.args.kwarg.arg if fdef.args.kwarg else None))
-    fdef = default[0]
-    rets = [s for s in ast.walk(fdef) if isinstance(s, ast.Return)]
-    ok = len(rets) == 1 and isinstance(rets[0].value, ast.Call) and isinstance(rets[0].value.func, ast.Name) \
-        and rets[0].value.func.id == var and passthrough(rets[0].value) and len(fdef.body) == 1
-    ck.same("R1", where, f"default body: {norm(rets[0]) if rets else '?'}", "returns the looked-up transform applied to (*args, **kwargs) unchanged",
-            ok, found=norm(fdef)[:200], nontrivial=True)
-    fdef = dask_b[0]
-    wraps = [c for c in ast.walk(fdef) if isinstance(c, ast.Call) and prog.resolve_expr_name(mi, c.func) == "dask.array.fft.fft_wrap"]
-    if len(wraps) != 1:
-        ck.same("R1", where, "dask body", "wraps the transform with dask.array.fft.fft_wrap", False, found=norm(fdef)[:200], nontrivial=True)
-        return
-    w = wraps[0]
-    ck.same("R1", where, f"dask body: {norm(w)}", "fft_wrap receives the same closure variable as the default body", len(w.args) >= 1
-            and isinstance(w.args[0], ast.Name) and w.args[0].id == var, found=norm(w), nontrivial=True)
-    if len(w.args) > 1 or w.keywords:
-        ck.unk("R1", where, f"dask body: {norm(w)}", "declared output metadata of the lazy transform agrees with the reference transform",
-               "fft_wrap is given explicit kind/dtype arguments; whether the declared dtype equals what every one of the fourteen transforms "
-               "returns for every input dtype is not decided by this rule")
-    rets = [s for s in ast.walk(fdef) if isinstance(s, ast.Return)]
-    ok = False
-    if len(rets) == 1 and isinstance(rets[0].value, ast.Call):
-        c = rets[0].value
-        tgt = c.func
-        is_wrapped = (isinstance(tgt, ast.Call) and tgt is w) or (
-            isinstance(tgt, ast.Name) and any(isinstance(s, ast.Assign) and s.value is w and isinstance(s.targets[0], ast.Name)
-                                              and s.targets[0].id == tgt.id for s in fdef.body))
-        ok = is_wrapped and passthrough(c)
-    ck.same("R1", where, f"dask body: {norm(rets[0]) if rets else '?'}", "returns the wrapped transform applied to (*args, **kwargs) unchanged", ok,
-            found=norm(fdef)[:240], nontrivial=True)
+
+def reference_dtype(nm, in_dtype):
+    """Output dtype of the *installed* scipy.fft transform for a small array of the given dtype (third-party introspection)."""
+    import numpy as np
+    import scipy.fft as sfft
+    x = np.ones((4, 4), dtype=getattr(np, in_dtype))
+    try:
+        return getattr(sfft, nm)(x).dtype.name
+    except Exception:
+        return None
+
+
+def declared_vs_reference(ck, prog, ga, where, nm, kw, given):
+    from ..symeval import Evaluator, Frame
+    for in_dt in ("float32", "float64", "complex64", "complex128"):
+        ref = reference_dtype(nm, in_dt)
+        if ref is None:
+            continue
+        ev = Evaluator(prog)
+        x = Num(sp.Symbol("x"), kind="array", shape=(sp.Integer(4), sp.Integer(4)), tag="data", backend="dask", dtype=ExtV("numpy." + in_dt))
+        tag = f"pulsarbat.fft.{nm} on a {in_dt} Dask array: declared dtype"
+        try:
+            disp = ev.call(ga, [StrV(nm)], {})
+            ev.apply(disp, [x], {}, Frame(ev, None, None, {}, 0))
+        except Raised as e:
+            ck.same("R1", where, tag, "the lazy transform is built", False, found=str(e)[:120])
+            continue
+        except Unsupported as e:
+            ck.unk("R1", where, tag, "explicit kind/dtype arguments to fft_wrap agree with what the reference transform returns",
+                   f"fft_wrap is given {given}; not evaluable: {str(e)[:140]}")
+            continue
+        w = [t for t in ev.trace if t[0] == "fft_wrap"]
+        decl = w[-1][4].get("dtype") if w else None
+        if decl is None or isinstance(decl, type(None)) or decl.__class__.__name__ == "NoneV":
+            continue
+        name = decl.dotted[6:] if isinstance(decl, ExtV) and decl.dotted.startswith("numpy.") else repr(decl)
+        ck.same("R1", where, tag, f"a dtype declared to dask's fft_wrap equals what scipy.fft.{nm} returns for that input ({ref})",
+                name == ref, found=name, expected=ref, nontrivial=True)
 
 
 def lin_zero(e):
